@@ -79,6 +79,34 @@ def canon(f, n, depth=0, res=None):
     return f.show(n)
 
 
+def _linsum(f, e, depth=0):
+    """e as a sum: ({term text: coefficient}, constant), looking through casts and through
+    locals that merely name a sub-expression"""
+    e = cu.strip_casts(f, e)
+    if e is None or depth > 12:
+        return None
+    v = cu.const_of(e)
+    if v is not None:
+        return ({}, v)
+    if e['k'] == 'ref':
+        d = cu.stable_def_of(f, e)
+        if d is not None:
+            r = _linsum(f, d, depth + 1)
+            if r is not None:
+                return r
+        return ({e['name']: 1}, 0)
+    if e['k'] == 'bin' and e['op'] in ('+', '-'):
+        x, y = _linsum(f, f.kid(e, 0), depth + 1), _linsum(f, f.kid(e, 1), depth + 1)
+        if x is None or y is None:
+            return None
+        sg = 1 if e['op'] == '+' else -1
+        t = dict(x[0])
+        for k_, c in y[0].items():
+            t[k_] = t.get(k_, 0) + sg * c
+        return ({k_: c for k_, c in t.items() if c}, x[1] + sg * y[1])
+    return ({canon(f, e): 1}, 0)
+
+
 def _decls(f):
     return [n for n in f.all_nodes() if n['k'] == 'decl']
 
@@ -445,56 +473,110 @@ def r14_2(ctx):
         guards = list(GUARD_FACTS)
         inblk = {'at-or-after-block-start': '%s >= %s->base' % (X, B),
                  'before-block-end': '%s < %s->base + %s->size' % (X, B, B)}
-        # nodes of interest: the window declaration, and every dereference of P
-        p_uses = [n for n in f.all_nodes() if n['k'] == 'ref' and n['name'] == P]
+        # every place where block bytes are read: `*E`, `E[i]`, or E handed to a callee,
+        # with E = P + (something).  The something must be D (the window offset) alone
+        # - then the callee gets L as the length, or the read is of the window's first byte
+        # under L > 0 - or D + i inside a loop that keeps i < L.  E may be spelled through
+        # locals naming a sub-expression (`range_start = block_data + data_offset`).
         derefs = []
         shape_bad = []
-        for u in p_uses:
+
+        def in_loop_bounded(n, iname):
+            for a in f.ancestors(n):
+                if a['k'] not in ('for', 'while'):
+                    continue
+                if a['k'] == 'for':
+                    parts = a.get('parts', [])
+                    cnd = f.node(parts[1]) if len(parts) > 1 and parts[1] >= 0 else None
+                else:
+                    cnd = f.kid(a, 0)
+                if cnd is None:
+                    continue
+                for x in f.walk(cnd):
+                    for k_, val in _cmp_keys(f, x, True):
+                        if k_ == ('lt', iname, L) and val:
+                            return True
+            return False
+
+        def under_nonempty(n, c):
+            """n sits in the then-branch of a test that makes L > c"""
+            child = n
+            for a in f.ancestors(n):
+                if a['k'] == 'if' and len(f.kids(a)) > 1 and child is f.kids(a)[1]:
+                    for x in f.walk(f.kid(a, 0)):
+                        for k_, val in _cmp_keys(f, x, True):
+                            if k_ == ('lt', str(c), L) and val:
+                                return True
+                            if c == 0 and k_ == ('eq',) + tuple(sorted([L, '0'])) and not val:
+                                return True
+                child = a
+            return False
+
+        def classify(n, ls, how, nxt=None):
+            terms, cst = ls
+            rest = dict((t, c) for t, c in terms.items() if t not in (P, D))
+            if terms.get(P) != 1:
+                return
+            if terms.get(D) != 1:
+                shape_bad.append((n, 'read at %s + %s, not relative to the window offset %s' % (
+                    P, ' + '.join(sorted(rest)) or str(cst), D)))
+                return
+            derefs.append(n)
+            if how == 'call':
+                if rest or cst != 0 or nxt is None or canon(f, nxt) != L:
+                    shape_bad.append((n, 'handed to %s() with length %s instead of %s' % (
+                        n.get('callee'), canon(f, nxt) if nxt is not None else '?', L)))
+                return
+            if not rest:
+                if cst < 0 or not under_nonempty(n, cst):
+                    shape_bad.append((n, 'read at offset %d of the window without %s > %d' % (cst, L, cst)))
+                return
+            if cst != 0 or len(rest) != 1 or list(rest.values()) != [1] or \
+                    not in_loop_bounded(n, list(rest)[0]):
+                shape_bad.append((n, 'indexed by %s%s outside a loop that keeps it below %s' % (
+                    ' + '.join(sorted(rest)), (' + %d' % cst) if cst else '', L)))
+
+        def add(x, y):
+            t = dict(x[0])
+            for k_, c in y[0].items():
+                t[k_] = t.get(k_, 0) + c
+            return ({k_: c for k_, c in t.items() if c}, x[1] + y[1])
+        for n in f.all_nodes():
+            if n['k'] == 'un' and n['op'] == '*':
+                ls = _linsum(f, f.kid(n, 0))
+                if ls is not None and P in ls[0]:
+                    classify(n, ls, 'deref')
+            elif n['k'] == 'sub':
+                lb, li = _linsum(f, f.kid(n, 0)), _linsum(f, f.kid(n, 1))
+                if lb is not None and P in lb[0]:
+                    if li is None:
+                        shape_bad.append((n, 'indexed by %s' % canon(f, f.kid(n, 1))[:40]))
+                    else:
+                        classify(n, add(lb, li), 'deref')
+            elif n['k'] == 'call' and n.get('callee') != 'yr_fetch_block_data':
+                args = f.call_args(n)
+                for j, a_ in enumerate(args):
+                    at_ = cu.strip_casts(f, a_)
+                    if at_ is None or '*' not in (at_.get('t') or '*'):
+                        continue
+                    ls = _linsum(f, a_)
+                    if ls is not None and ls[0].get(P) == 1 and all(
+                            '(' not in t and '[' not in t for t in ls[0]):
+                        classify(n, ls, 'call', args[j + 1] if j + 1 < len(args) else None)
+        # any other use of P (stored, returned, compared with something that is not NULL)
+        for u in [x for x in f.all_nodes() if x['k'] == 'ref' and x['name'] == P]:
             par = f.parent(u)
             while par is not None and par['k'] == 'cast':
                 par = f.parent(par)
             if par is None:
                 continue
-            if par['k'] == 'bin' and par['op'] in ('==', '!='):
+            if par['k'] == 'bin' and par['op'] in ('==', '!=', '+', '-'):
                 continue
             if par['k'] == 'bin' and par['op'] == '=' and cu.strip_casts(f, f.kid(par, 0)) is u:
                 continue            # the definition of P itself
-            if par['k'] == 'un' and par['op'] == '!':
+            if par['k'] == 'un' and par['op'] in ('!', '*'):
                 continue
-            if par['k'] in ('if', 'while', 'for', 'cond'):
-                continue
-            # expected: (P + D) [+ i]
-            if par['k'] == 'bin' and par['op'] == '+':
-                other = f.kid(par, 1) if cu.strip_casts(f, f.kid(par, 0)) is u else f.kid(par, 0)
-                if canon(f, other) != D:
-                    shape_bad.append((u, 'added to %s instead of %s' % (canon(f, other), D)))
-                    continue
-                up = f.parent(par)
-                while up is not None and up['k'] == 'cast':
-                    up = f.parent(up)
-                if up is not None and up['k'] == 'call':
-                    args = f.call_args(up)
-                    idx = [i for i, a in enumerate(args) if cu.strip_casts(f, a) is par or a is par]
-                    nxt = args[idx[0] + 1] if idx and idx[0] + 1 < len(args) else None
-                    if nxt is None or canon(f, nxt) != L:
-                        shape_bad.append((u, 'handed to %s() with length %s instead of %s' % (
-                            up.get('callee'), canon(f, nxt) if nxt is not None else '?', L)))
-                    derefs.append(up)
-                    continue
-                if up is not None and up['k'] == 'bin' and up['op'] == '+':
-                    iv = f.kid(up, 1) if cu.strip_casts(f, f.kid(up, 0)) is par else f.kid(up, 0)
-                    iname = canon(f, iv)
-                    loop = None
-                    for a in f.ancestors(up):
-                        if a['k'] == 'for' and canon(f, f.kid(a, 1)) == '(%s < %s)' % (iname, L) and \
-                                canon(f, f.kid(a, 0)) == '(%s = 0)' % iname:
-                            loop = a
-                    if loop is None:
-                        shape_bad.append((u, 'indexed by %s outside a loop `for (%s = 0; %s < %s; ..)`' % (
-                            iname, iname, iname, L)))
-                    derefs.append(up)
-                    continue
-                shape_bad.append((u, 'used as %s' % canon(f, up)[:60]))
+            if par['k'] in ('if', 'while', 'for', 'cond', 'sub', 'call', 'decl'):
                 continue
             shape_bad.append((u, 'used as %s' % canon(f, par)[:60]))
         ctx.ob('R14.2', key + ':data-read-inside-window', not shape_bad,
